@@ -620,7 +620,7 @@ PROPS = {
         level_text='Theorems over every program set and schedule: (during) a done context of a call inside its section makes the timeout goroutine close the connection and the call fail; (origin) a watched context other than '
                    'Background always belongs to a call currently in its section or to a failed / failing one; (after success) when all calls that used c returned nil, no side is armed with c and cancelling c leaves the timeout '
                    'goroutine without a step. Tie: per-call results and connection liveness in 30 scenarios x 2 roles + re-arm discipline read off the hook trace.',
-        level_note='full on the model; the model\'s section structure is tied to the code by hook traces and scenario outcomes.',
+        level_note='full on the model, incl. the lock-wait case (C10_giveup_closes: a wait given up on a done context makes the timeout goroutine close the connection); the model\'s section structure is tied to the code by hook traces (every frame written with its context armed, re-armed with Background on success) and scenario outcomes.',
         technique='Coq proofs (invariants over all schedules of the context / timeout-goroutine model) + scenario runs with hook-trace validation of the arm / re-arm discipline',
     ),
     'C20': dict(
